@@ -1,7 +1,8 @@
 (* Corr/C02.v — executable check for one C02 case: run the model of the concept miners and the
    spec enumeration of all concepts on the case's table and compare both with what the
    implementation returned. *)
-From FCA Require Export Corr.Common Model.ConceptConstruction Spec.Closure.
+From FCA Require Export Corr.Common Model.ConceptConstruction Model.ConceptConstructionStack
+     Model.FromContextLattice Spec.Closure Spec.LatticeOrderSpec.
 
 Record c02_case := {
   c_backend : backend;
@@ -15,12 +16,19 @@ Record c02_case := {
        6 close_by_one_objectwise_fbarray(K) [sequence]
        7 sofia(K,L_max)             8 lindig_algorithm(K,iterate_extents)
        9 FormalConcept.from_objects(arg by index, K, is_extent=flag)
-       10 FormalConcept.from_objects(arg by name, K, is_extent=flag) *)
+       10 FormalConcept.from_objects(arg by name, K, is_extent=flag)
+       11..14 the LATTICE from_context returns (11 default, 12 'CbO', 13 'Lindig' iterate_extents,
+              14 'Sofia' L_max): c_impl lists the concepts in the lattice's order, c_rel holds
+              (children, parents, descendants, ancestors) of every index, c_top / c_bot the
+              cached top / bottom index *)
   c_ie : option bool;
   c_lmax : nat;
   c_arg : list nat;
   c_flag : bool;
-  c_impl : ires (list fconcept)
+  c_impl : ires (list fconcept);
+  c_rel : list (list nat * list nat * list nat * list nat);
+  c_top : option nat;
+  c_bot : option nat
 }.
 
 Definition ctx_of (c : c02_case) : context :=
@@ -56,10 +64,14 @@ Definition c02_model (c : c02_case) : ires (list fconcept) :=
   | 7 => of_opt (sofia K (c_lmax c))
   | 8 => of_opt (lindig K (c_ie c))
   | 9 => IOk [from_objects K (c_arg c) (c_flag c)]
-  | _ => match from_objects_named K (c_arg c) (c_flag c) with
-         | Some x => IOk [x]
-         | None => IErr 2           (* ValueError: name not in object_names *)
-         end
+  | 10 => match from_objects_named K (c_arg c) (c_flag c) with
+          | Some x => IOk [x]
+          | None => IErr 2           (* ValueError: name not in object_names *)
+          end
+  | 11 => of_opt (from_context_concepts K 0 None 0)
+  | 12 => of_opt (from_context_concepts K 1 None 0)
+  | 13 => of_opt (from_context_concepts K 2 (c_ie c) 0)
+  | _ => of_opt (from_context_concepts K 3 None (c_lmax c))
   end.
 
 (* the yielded sequence is compared exactly for the generators and from_objects, as a multiset
@@ -67,9 +79,65 @@ Definition c02_model (c : c02_case) : ires (list fconcept) :=
 Definition ordered_algo (a : nat) : bool :=
   match a with 4 | 5 | 6 | 9 | 10 => true | _ => false end.
 
+(* the literal explicit-stack transcription of the CbO generators (Model/ConceptConstructionStack.v,
+   fuel n*2^n+1 which Lemmas/C02_Stack.v proves sufficient) must yield the implementation's
+   sequence as well *)
+Definition stack_model (c : c02_case) : option (stack_res fconcept) :=
+  let K := ctx_of c in
+  let fuel := stack_fuel (Nat.max (k_n K) (k_w K)) in
+  match c_algo c with
+  | 4 => Some (close_by_one_stack K fuel)
+  | 5 => Some (cbo_objectwise_stack K fuel)
+  | 6 => Some (cbo_fbarray_stack K fuel)
+  | _ => None
+  end.
+
+Definition stack_agrees (c : c02_case) (i : list fconcept) : bool :=
+  match stack_model c with
+  | None => true
+  | Some (SDone ys) => list_eqb fc_eqb i ys
+  | Some SOutOfFuel => false
+  end.
+
+(* ---- the lattice runs (11..14): the model of Model/FromContextLattice.v with a closure-loop
+   budget of 2^12 rounds *)
+Definition lattice_algo (a : nat) : option nat :=
+  match a with 11 => Some 0 | 12 => Some 1 | 13 => Some 2 | 14 => Some 3 | _ => None end.
+
+Definition opt_nat_eqb (a b : option nat) : bool :=
+  match a, b with Some x, Some y => Nat.eqb x y | None, None => true | _, _ => false end.
+
+Definition rel_at (c : c02_case) (i : nat) := nth i (c_rel c) ([], [], [], []).
+Definition r_children (r : list nat * list nat * list nat * list nat) := fst (fst (fst r)).
+Definition r_parents (r : list nat * list nat * list nat * list nat) := snd (fst (fst r)).
+Definition r_descendants (r : list nat * list nat * list nat * list nat) := snd (fst r).
+Definition r_ancestors (r : list nat * list nat * list nat * list nat) := snd r.
+
+Definition concept_eqb (p q : list nat * list nat) : bool :=
+  nat_list_eqb (fst p) (fst q) && nat_list_eqb (snd p) (snd q).
+
+Definition lattice_same (c : c02_case) (a : nat) (i : list fconcept) : bool :=
+  match from_context_lattice (ctx_of c) a (c_ie c) (c_lmax c) 12 with
+  | LView v =>
+      list_eqb concept_eqb (map pair_c i) (lv_concepts v) &&
+      Nat.eqb (length (c_rel c)) (length i) &&
+      forallb (fun k => same_setb (r_children (rel_at c k)) (lv_children v k) &&
+                        same_setb (r_parents (rel_at c k)) (lv_parents v k) &&
+                        same_setb (r_descendants (rel_at c k)) (lv_descendants v k) &&
+                        same_setb (r_ancestors (rel_at c k)) (lv_ancestors v k))
+              (seq 0 (length i)) &&
+      opt_nat_eqb (c_top c) (lv_top v) && opt_nat_eqb (c_bot c) (lv_bottom v)
+  | _ => false
+  end.
+
 Definition c02_same (c : c02_case) : bool :=
   match c_impl c, c02_model c with
-  | IOk i, IOk m => if ordered_algo (c_algo c) then list_eqb fc_eqb i m else fc_perm_eqb i m
+  | IOk i, IOk m =>
+      match lattice_algo (c_algo c) with
+      | Some a => lattice_same c a i
+      | None => if ordered_algo (c_algo c) then list_eqb fc_eqb i m && stack_agrees c i
+                else fc_perm_eqb i m
+      end
   | IErr a, IErr b => Nat.eqb a b
   | _, _ => false
   end.
@@ -136,8 +204,23 @@ Definition from_objects_ok (c : c02_case) (A : list nat) (l : list fconcept) : b
   | _ => false
   end.
 
+(* the lattice: exactly the concepts, listed by non-increasing extent size, top first and bottom
+   last, and the four relations are those of extent inclusion (Spec/LatticeOrderSpec.v) *)
+Definition lattice_spec_ok (c : c02_case) (l : list fconcept) : bool :=
+  let exts := map c_ext_i l in
+  exactly_all_concepts c l &&
+  sizes_sortedb exts &&
+  opt_nat_eqb (c_top c) (Some 0) && opt_nat_eqb (c_bot c) (Some (length l - 1)) &&
+  Nat.eqb (length (c_rel c)) (length l) &&
+  forallb (fun k => same_setb (r_children (rel_at c k)) (spec_children exts k) &&
+                    same_setb (r_parents (rel_at c k)) (spec_parents exts k) &&
+                    same_setb (r_descendants (rel_at c k)) (spec_descendants exts k) &&
+                    same_setb (r_ancestors (rel_at c k)) (spec_ancestors exts k))
+          (seq 0 (length l)).
+
 Definition c02_spec_ok (c : c02_case) : bool :=
   match c_algo c with
+  | 11 | 12 | 13 | 14 => match c_impl c with IOk l => lattice_spec_ok c l | _ => false end
   | 9 => match c_impl c with IOk l => from_objects_ok c (c_arg c) l | _ => false end
   | 10 => match spec_lookup (c_onames c) (c_arg c), c_impl c with
           | Some A, IOk l => from_objects_ok c A l
@@ -149,5 +232,13 @@ Definition c02_spec_ok (c : c02_case) : bool :=
 
 Definition c02_check (c : c02_case) : nat := code_of (c02_same c) (c02_spec_ok c).
 
+Definition lattice_model (c : c02_case) :=
+  match lattice_algo (c_algo c) with
+  | Some a => match from_context_lattice (ctx_of c) a (c_ie c) (c_lmax c) 12 with
+              | LView v => Some (lv_concepts v, map (lv_children v) (seq 0 (length (lv_concepts v))),
+                                 map (lv_parents v) (seq 0 (length (lv_concepts v))), lv_top v, lv_bottom v)
+              | _ => None end
+  | None => None
+  end.
 Definition c02_show (c : c02_case) :=
-  (c02_model c, concepts_spec (c_table c), c02_same c, c02_spec_ok c).
+  (c02_model c, stack_model c, lattice_model c, concepts_spec (c_table c), c02_same c, c02_spec_ok c).
